@@ -31,9 +31,10 @@ type target struct {
 
 var fset = token.NewFileSet()
 
+type untranslatable string
+
 func die(format string, a ...interface{}) {
-	fmt.Fprintf(os.Stderr, "untranslatable: "+format+"\n", a...)
-	os.Exit(1)
+	panic(untranslatable(fmt.Sprintf(format, a...)))
 }
 
 func src(n ast.Node) string {
@@ -551,6 +552,60 @@ func listenerExits(repo string, sites [][2]string) string {
 		"baseorbitdb/orbitdb.go monitorDirectChannel, stores/basestore/base_store.go pubSubChanListener", strings.Join(where, "; "), total)
 }
 
+// effectOrder lists, in source order, which of the named effects (a name and the text its call or
+// statement starts with / contains) occur in the body of a function: the order in which the function
+// performs them. An effect that does not occur is left out (and the equality lemma fails).
+func effectOrder(repo, file, fn, lean string, effects [][2]string) string {
+	f, err := parser.ParseFile(fset, filepath.Join(repo, file), nil, 0)
+	if err != nil {
+		die("%s: %v", file, err)
+	}
+	fd := findFunc(f, fn)
+	if fd == nil {
+		die("%s: function %s not found", file, fn)
+	}
+	type hit struct {
+		pos  token.Pos
+		name string
+	}
+	first := map[string]token.Pos{}
+	ast.Inspect(fd.Body, func(n ast.Node) bool {
+		var txt string
+		switch x := n.(type) {
+		case *ast.CallExpr:
+			txt = src(x)
+		case *ast.ReturnStmt:
+			txt = src(x)
+		default:
+			return true
+		}
+		for _, e := range effects {
+			if strings.Contains(txt, e[1]) {
+				if p, ok := first[e[0]]; !ok || n.Pos() < p {
+					first[e[0]] = n.Pos()
+				}
+			}
+		}
+		return true
+	})
+	var hits []hit
+	for name, pos := range first {
+		hits = append(hits, hit{pos, name})
+	}
+	for i := range hits {
+		for j := i + 1; j < len(hits); j++ {
+			if hits[j].pos < hits[i].pos {
+				hits[i], hits[j] = hits[j], hits[i]
+			}
+		}
+	}
+	var names []string
+	for _, h := range hits {
+		names = append(names, fmt.Sprintf("%q", h.name))
+	}
+	return fmt.Sprintf("/-- generated from %s, func %s: the order of its effects -/\ndef %s : List String := [%s]\n\n", file, fn, lean, strings.Join(names, ", "))
+}
+
 func main() {
 	if len(os.Args) != 3 {
 		fmt.Fprintln(os.Stderr, "usage: extract <repo> <outdir>")
@@ -562,39 +617,104 @@ func main() {
 		"b.ReplicationStatus().GetProgress()": "sProgress",
 		"b.OpLog().Len()":                     "len",
 	}
-	targets := []target{
-		{file: "stores/basestore/base_store.go", fn: "recalculateReplicationProgress", lean: "genRecalcProgress",
-			params: []string{"len", "sMax", "sProgress"}, calls: statusCalls, result: "call:SetProgress"},
-		{file: "stores/basestore/base_store.go", fn: "recalculateReplicationMax", lean: "genRecalcMax",
-			params: []string{"len", "sMax", "sProgress"}, calls: statusCalls, result: "call:SetMax"},
-		{file: "stores/eventlogstore/log.go", fn: "query", lean: "genNormAmount",
-			params: []string{"amountSet", "amount0", "len"}, bools: map[string]bool{"amountSet": true},
-			calls:  map[string]string{"options.Amount != nil": "amountSet", "*options.Amount": "amount0", "len(events)": "len"},
-			only:   "amount := 1", result: "stop:var c cid.Cid", resVar: "amount"},
-		{file: "stores/basestore/base_store.go", fn: "Load", lean: "genLoadAmount",
-			params: []string{"mhSet", "mh"}, bools: map[string]bool{"mhSet": true},
-			calls:  map[string]string{"b.options.MaxHistory != nil": "mhSet", "*b.options.MaxHistory": "mh"},
-			only:   "if amount <= 0 && b.options.MaxHistory != nil", result: "stop:var localHeads", resVar: "amount"},
+	bs := "stores/basestore/base_store.go"
+	// one generated file per group, so that a change in one Go function only touches the properties
+	// whose theorems are tied to it
+	groups := []struct {
+		name string
+		gen  func() string
+	}{
+		{"GenStatus", func() string {
+			return translate(repo, target{file: bs, fn: "recalculateReplicationProgress", lean: "genRecalcProgress",
+				params: []string{"len", "sMax", "sProgress"}, calls: statusCalls, result: "call:SetProgress"}) + "\n" +
+				translate(repo, target{file: bs, fn: "recalculateReplicationMax", lean: "genRecalcMax",
+					params: []string{"len", "sMax", "sProgress"}, calls: statusCalls, result: "call:SetMax"}) + "\n"
+		}},
+		{"GenQuery", func() string {
+			return translate(repo, target{file: "stores/eventlogstore/log.go", fn: "query", lean: "genNormAmount",
+				params: []string{"amountSet", "amount0", "len"}, bools: map[string]bool{"amountSet": true},
+				calls: map[string]string{"options.Amount != nil": "amountSet", "*options.Amount": "amount0", "len(events)": "len"},
+				only:  "amount := 1", result: "stop:var c cid.Cid", resVar: "amount"}) + "\n"
+		}},
+		{"GenLoad", func() string {
+			return translate(repo, target{file: bs, fn: "Load", lean: "genLoadAmount",
+				params: []string{"mhSet", "mh"}, bools: map[string]bool{"mhSet": true},
+				calls: map[string]string{"b.options.MaxHistory != nil": "mhSet", "*b.options.MaxHistory": "mh"},
+				only:  "if amount <= 0 && b.options.MaxHistory != nil", result: "stop:var localHeads", resVar: "amount"}) + "\n"
+		}},
+		{"GenFrame", func() string {
+			return fmt.Sprintf("/-- pubsub/directchannel/channel.go: DelimitedReadMaxSize -/\ndef delimitedReadMaxSize : Int := %s\n\n",
+				constantOf(repo, "pubsub/directchannel/channel.go", "DelimitedReadMaxSize")) + frameGuard(repo)
+		}},
+		{"GenConsts", func() string {
+			return fmt.Sprintf("/-- stores/replicator/replicator.go: batchSize -/\ndef batchSize : Int := %s\n\n", constantOf(repo, "stores/replicator/replicator.go", "batchSize")) +
+				fmt.Sprintf("/-- stores/basestore/base_store.go: default referenceCount -/\ndef referenceCount : Int := %s\n\n", assignedConst(repo, bs, "InitBaseStore", "b.referenceCount"))
+		}},
+		{"GenSnap", func() string {
+			return snapGuards(repo) + effectOrder(repo, "stores/basestore/utils.go", "SaveSnapshot", "saveSnapshotOrder", [][2]string{
+				{"heads", "oplog.Heads()"}, {"len", "oplog.Len()"}, {"entries", "oplog.GetEntries()"}})
+		}},
+		{"GenListener", func() string {
+			return listenerExits(repo, [][2]string{{"baseorbitdb/orbitdb.go", "monitorDirectChannel"}, {bs, "pubSubChanListener"}})
+		}},
+		{"GenWrite", func() string {
+			return effectOrder(repo, bs, "AddOperation", "addOperationOrder", [][2]string{
+				{"lock", "b.muWrite.Lock()"}, {"append", "oplog.Append("}, {"status", "b.recalculateReplicationStatus("},
+				{"headput", "datastore.NewKey(\"_localHeads\")"},
+				{"index", "b.updateIndex("}, {"emit", "evtWrite.Emit("}}) +
+				effectOrder(repo, "stores/kvstore/index.go", "UpdateIndex", "kvIndexOrder", [][2]string{
+					{"lock", "i.muIndex.Lock()"}, {"copy", "oplog.Values()"}}) +
+				effectOrder(repo, "stores/documentstore/index.go", "UpdateIndex", "docIndexOrder", [][2]string{
+					{"lock", "i.muIndex.Lock()"}, {"copy", "oplog.Values()"}})
+		}},
+		{"GenLoadComplete", func() string {
+			return effectOrder(repo, bs, "replicationLoadComplete", "loadCompleteOrder", [][2]string{
+				{"join", "oplog.Join("}, {"index", "b.updateIndex("}, {"heads", "oplog.Heads()"},
+				{"headput", "datastore.NewKey(\"_remoteHeads\")"}, {"emit", "evtReplicated.Emit("}})
+		}},
+		{"GenClose", func() string {
+			return effectOrder(repo, bs, "Close", "closeOrder", [][2]string{
+				{"guard", "b.isClosed()"}, {"cancel", "b.cancel()"}, {"unregister", "b.closeFunc()"},
+				{"stop", "Replicator().Stop()"}, {"cacheclose", "b.Cache().Close()"}})
+		}},
+		{"GenSync", func() string {
+			return effectOrder(repo, bs, "Sync", "syncOrder", [][2]string{
+				{"access", "CanAppend("}, {"write", "b.IO().Write("}, {"hashcheck", "Head hash didn't match"},
+				{"loadable", "append(loadable, h)"}, {"load", "Replicator().Load("}})
+		}},
 	}
-	var sb strings.Builder
-	sb.WriteString("/-! GENERATED by /verif/extract from /repo on every run — do not edit. -/\nset_option linter.unusedVariables false\nnamespace Orbit.Gen\n\n")
-	for _, t := range targets {
-		sb.WriteString(translate(repo, t) + "\n")
-	}
-	fmt.Fprintf(&sb, "/-- pubsub/directchannel/channel.go: DelimitedReadMaxSize -/\ndef delimitedReadMaxSize : Int := %s\n\n", constantOf(repo, "pubsub/directchannel/channel.go", "DelimitedReadMaxSize"))
-	sb.WriteString(frameGuard(repo))
-	fmt.Fprintf(&sb, "/-- stores/replicator/replicator.go: batchSize -/\ndef batchSize : Int := %s\n\n", constantOf(repo, "stores/replicator/replicator.go", "batchSize"))
-	fmt.Fprintf(&sb, "/-- stores/basestore/base_store.go: default referenceCount -/\ndef referenceCount : Int := %s\n\n", assignedConst(repo, "stores/basestore/base_store.go", "InitBaseStore", "b.referenceCount"))
-	sb.WriteString(snapGuards(repo))
-	sb.WriteString(listenerExits(repo, [][2]string{{"baseorbitdb/orbitdb.go", "monitorDirectChannel"}, {"stores/basestore/base_store.go", "pubSubChanListener"}}))
-	sb.WriteString("end Orbit.Gen\n")
 	os.MkdirAll(out, 0o755)
-	path := filepath.Join(out, "Gen.lean")
-	old, _ := os.ReadFile(path)
-	if string(old) != sb.String() {
-		if err := os.WriteFile(path, []byte(sb.String()), 0o644); err != nil {
-			fmt.Fprintln(os.Stderr, err)
-			os.Exit(1)
+	failed := 0
+	for _, g := range groups {
+		var body string
+		func() {
+			defer func() {
+				if r := recover(); r != nil {
+					u, ok := r.(untranslatable)
+					if !ok {
+						panic(r)
+					}
+					failed++
+					fmt.Fprintf(os.Stderr, "untranslatable (%s): %s\n", g.name, string(u))
+					// a module that does not compile: whatever is tied to this Go text stops checking
+					body = fmt.Sprintf("#eval (throw (IO.userError %q) : IO Unit)\n", "the extractor cannot translate the Go text any more: "+string(u))
+				}
+			}()
+			body = g.gen()
+		}()
+		text := "/-! GENERATED by /verif/extract from /repo on every run — do not edit. -/\nset_option linter.unusedVariables false\nnamespace Orbit.Gen\n\n" + body + "end Orbit.Gen\n"
+		path := filepath.Join(out, g.name+".lean")
+		old, _ := os.ReadFile(path)
+		if string(old) != text {
+			if err := os.WriteFile(path, []byte(text), 0o644); err != nil {
+				fmt.Fprintln(os.Stderr, err)
+				os.Exit(1)
+			}
 		}
+	}
+	// the single-file form of earlier versions
+	os.Remove(filepath.Join(out, "Gen.lean"))
+	if failed > 0 {
+		fmt.Fprintf(os.Stderr, "%d group(s) could not be translated\n", failed)
 	}
 }
